@@ -262,8 +262,13 @@ def _build_attrs(cs, bases):
     raise ValueError(api)
 
 
+KLIST = ["class-level"]      # a mutable object reachable through a non-field name of plain subclasses
+
+
 def _build_plain(cs, bases):
     ns = {"__module__": MOD}
+    if cs.get("klist"):
+        ns["klist"] = KLIST
     if cs.get("plain_slots"):
         ns["__slots__"] = ()
     if cs.get("pre", "none") != "none":
